@@ -434,14 +434,16 @@ func main() {
 		rep.Finish()
 	}
 
-	nComp := rep.Pick(800, 7000)
+	nComp := rep.Pick(1500, 10000)
 	nQ := rep.Pick(250, 400)
-	workers := runtime.GOMAXPROCS(0)
-	if workers > 12 {
-		workers = 12
+	// most of a composition's wall time is spent waiting (settle windows, silent
+	// upstreams), so more workers than cores pays off
+	workers := 2 * runtime.GOMAXPROCS(0)
+	if workers > 32 {
+		workers = 32
 	}
-	if workers < 1 {
-		workers = 1
+	if workers < 8 {
+		workers = 8
 	}
 	start := time.Now()
 	var wg sync.WaitGroup
